@@ -16,8 +16,9 @@ cd "$wt"
 if ! git apply --3way "$src/patch.diff" 2>/tmp/confirm/$id.apply && ! git apply "$src/patch.diff" 2>>/tmp/confirm/$id.apply; then
   echo "$id: APPLY FAILED: $(head -2 /tmp/confirm/$id.apply)"; exit 1
 fi
+git add -A
+git diff --cached > /tmp/confirm/$id.rebased.diff
 git reset -q
-git diff > /tmp/confirm/$id.rebased.diff
 build=$( (go build ./... && go vet ./...) 2>&1 | tail -3); brc=$?
 suite=$(go test -count=1 ./... 2>&1 | grep -v "no test files" | grep -v "^ok" | head -5)
 if [ -n "$build" ] || [ -n "$suite" ]; then echo "$id: BUILD/SUITE PROBLEM: $build $suite"; exit 1; fi
@@ -33,7 +34,7 @@ cp "$demo" "$dest/zz_demo_${id//-/_}_test.go"
 tests=$(grep -o '^func Test[A-Za-z0-9_]*' "$demo" | awk '{print $2}' | paste -sd'|')
 tagarg=""; [ -n "$tags" ] && tagarg="-tags $tags"
 with=$(go test -count=1 $tagarg -run "^($tests)\$" ./$dest 2>&1 | tail -3); echo "$with" | grep -q "^FAIL" ; withfail=$?
-git checkout -q -- .
+git checkout -q -- .; git clean -fdq -e "zz_demo_*" .
 without=$(go test -count=1 $tagarg -run "^($tests)\$" ./$dest 2>&1 | tail -3); echo "$without" | grep -q "^ok" ; withoutok=$?
 if [ $withfail -ne 0 ] || [ $withoutok -ne 0 ]; then
   echo "$id: DEMO NOT CONFIRMED (with: $(echo $with | tail -c 200)) (without: $(echo $without | tail -c 200))"; exit 1
